@@ -902,3 +902,89 @@ def _mk_across(name, label):
 for _n, _l in (("hourly_occurrences_per_usage_pattern", "occurrences"), ("hourly_avg_occurrences_per_usage_pattern", "average occurrences"),
                ("hourly_data_transferred_per_usage_pattern", "data transferred"), ("hourly_data_stored_per_usage_pattern", "data stored")):
     _mk_across(_n, _l)
+
+
+# =====================================================================================================================
+# Builders (C17): derived parameters follow the stated rule
+# =====================================================================================================================
+CPU = Dim({"[cpu_core]": 1}); GPU = Dim({"[gpu]": 1}); PER_S = Dim({"[time]": -1})
+RESOLUTIONS = {"480p (640 x 480)": 640 * 480, "720p (1280 x 720)": 1280 * 720, "1080p (1920 x 1080)": 1920 * 1080,
+               "1440p (2560 x 1440)": 2560 * 1440, "2K (2048 x 1080)": 2048 * 1080, "4K (3840 x 2160)": 3840 * 2160, "8K (7680 x 4320)": 7680 * 4320}
+
+
+@update("VideoStreamingJob", "update_request_duration", kind="Q")
+def v_dur(I, g): return ("q", g.q("video_duration"), W.TIME)
+
+
+def _mk_bitrate(res, pixels):
+    def v_bitrate(I, g):
+        """bitrate = pixels x bits per pixel x frame rate"""
+        return ("q", pixels * G(I, g.raw("service")).q("bits_per_pixel") * g.q("refresh_rate"), PER_S)
+    UPDATE_SPECS[("VideoStreamingJob", "update_dynamic_bitrate", res)] = Spec("VideoStreamingJob", "update_dynamic_bitrate", spec=v_bitrate, kind="Q")
+
+
+for _r, _p in RESOLUTIONS.items(): _mk_bitrate(_r, _p)
+
+
+@update("VideoStreamingJob", "update_data_transferred", kind="Q")
+def v_dt(I, g):
+    """data transferred = bitrate x duration"""
+    return ("q", g.q("request_duration") * g.q("dynamic_bitrate"), DIMLESS)
+
+
+@update("VideoStreamingJob", "update_compute_needed", kind="Q")
+def v_cpu(I, g): return ("q", G(I, g.raw("service")).q("static_delivery_cpu_cost") * g.q("dynamic_bitrate"), CPU)
+
+
+@update("VideoStreamingJob", "update_ram_needed", kind="Q")
+def v_ram(I, g): return ("q", G(I, g.raw("service")).q("ram_buffer_per_user"), DIMLESS)
+
+
+@update("GPUServer", "update_carbon_footprint_fabrication", kind="Q")
+def gpu_cff(I, g): return ("q", g.q("carbon_footprint_fabrication_without_gpu") + g.q("compute") * g.q("carbon_footprint_fabrication_per_gpu"), W.MASS)
+
+
+@update("GPUServer", "update_power", kind="Q")
+def gpu_power(I, g): return ("q", g.q("gpu_power") * g.q("compute"), W.POWER)
+
+
+@update("GPUServer", "update_idle_power", kind="Q")
+def gpu_idle(I, g): return ("q", g.q("gpu_idle_power") * g.q("compute"), W.POWER)
+
+
+@update("GPUServer", "update_ram", kind="Q")
+def gpu_ram(I, g): return ("q", g.q("ram_per_gpu") * g.q("compute"), DIMLESS)
+
+
+@update("GenAIModel", "update_base_ram_consumption", kind="Q")
+def gen_base_ram(I, g): return ("q", g.q("llm_memory_factor") * g.q("total_params") * g.q("nb_of_bits_per_parameter"), DIMLESS)
+
+
+@update("GenAIJob", "update_output_token_weights", kind="Q")
+def gj_w(I, g): return ("q", g.q("output_token_count") * G(I, g.raw("service")).q("bits_per_token"), DIMLESS)
+
+
+@update("GenAIJob", "update_data_stored", kind="Q")
+def gj_ds(I, g): return ("q", 100 * 8000 + g.q("output_token_weights"), DIMLESS)
+
+
+@update("GenAIJob", "update_data_transferred", kind="Q")
+def gj_dt(I, g): return ("q", 100 * 8000 + g.q("output_token_weights"), DIMLESS)
+
+
+@update("GenAIJob", "update_request_duration", kind="Q")
+def gj_dur(I, g):
+    s = G(I, g.raw("service"))
+    return ("q", g.q("output_token_count") * (s.q("gpu_latency_alpha") * s.q("active_params") + s.q("gpu_latency_beta")), W.TIME)
+
+
+@update("GenAIJob", "update_ram_needed", kind="Q")
+def gj_ram(I, g): return ("q", z3.RealVal(0), DIMLESS)
+
+
+@update("GenAIJob", "update_compute_needed", kind="Q")
+def gj_cpu(I, g):
+    s = G(I, g.raw("service"))
+    rpg = G(I, s.raw("server")).q("ram_per_gpu")
+    I.require("ram_per_gpu is not zero", rpg != 0)
+    return ("q", s.q("llm_memory_factor") * s.q("active_params") * s.q("nb_of_bits_per_parameter") / rpg, GPU)
